@@ -350,6 +350,7 @@ def query_linear(cx, net, ids, model, X, M, T):
 def h_expr(cx, n, perm, spec, tier):
     """one expression, added as first and as second constraint (first-constraint code path differs)"""
     env.install(cx)
+    env.install_json(cx)
     A = acn()
     base = ["A", "B", "C", "D"][:n]
     ids = [base[i] for i in perm]
@@ -371,6 +372,15 @@ def h_expr(cx, n, perm, spec, tier):
         model.append(("x", row, lim))
         check_state(cx, net, ids, model, "first" if first else "second")
         cx.observe("matrix%d" % first, net.constraint_matrix)
+        if not first:
+            # the same alignment on a copy of the network that went through the public to_json() / from_json()
+            import warnings as _w
+
+            with _w.catch_warnings():
+                _w.simplefilter("ignore")
+                net2 = A.ChargingNetwork.from_json(net.to_json())
+            cx.check("reloaded:station_order", list(net2.station_ids) == ids, note=str(net2.station_ids))
+            check_state(cx, net2, ids, model, "reloaded")
     cx.tag("op:add")
 
 
